@@ -1,11 +1,11 @@
 package zv
 
 import (
-	"go/constant"
-	"os"
 	"fmt"
+	"go/constant"
 	"go/token"
 	"go/types"
+	"os"
 	"regexp"
 	"strings"
 
